@@ -185,9 +185,32 @@ func TestRace_GRPCBroker(t *testing.T) {
 				}
 			}
 			if mux {
+				first, seqDone := make(chan struct{}), make(chan struct{})
 				run(func() { // multiplexed establishments are sequential by contract
-					for i := 0; i < 3; i++ {
+					defer close(seqDone)
+					for i := 0; i < 5; i++ {
 						pair(i)
+						if i == 0 {
+							close(first)
+						}
+					}
+				})
+				// ... but a connection to an id that is already being served may be re-dialled at any time (gRPC
+				// does so by itself when it reconnects): id 2000 is accepted on the plugin side
+				run(func() {
+					<-first
+					for k := 0; k < 200; k++ {
+						select {
+						case <-seqDone:
+							return
+						default:
+						}
+						if cc, err := hb.Dial(2000); err == nil {
+							ctx, cancel := context.WithTimeout(context.Background(), 2*time.Second)
+							grpctest.NewPingPongClient(cc).Ping(ctx, &grpctest.PingRequest{})
+							cancel()
+							cc.Close()
+						}
 					}
 				})
 			} else {
